@@ -123,6 +123,80 @@ func jsxWrap(code string) string {
 	return "(function (require, module, exports) {__n = 0;\n" + code + "\n}).call(void 0, __req, { exports: {} }, {});0"
 }
 
+// jsxRunAll executes script/CommonJS/IIFE programs and returns one trace per program. All programs of a
+// call are first put into ONE script (a vm timeout watchdog per script is the dominant cost of the
+// worker on a busy machine); if that script does not compile, times out or loses events, every program
+// is run as a script of its own.
+func jsxRunAll(codes []string) ([]string, bool) {
+	var sb strings.Builder
+	for k, c := range codes {
+		fmt.Fprintf(&sb, "__run(%d, function (require, module, exports) {\n%s\n});\n", k, c)
+	}
+	out, err := W.Batch([]string{sb.String()}, jsxPrelude+jsxRunHelper)
+	if err != nil {
+		return nil, false
+	}
+	if traces, ok := splitRunTrace(out[0], len(codes)); ok {
+		return traces, true
+	}
+	if H != nil {
+		H.Note("jsx: combined script not usable (%s); programs run one by one", clipStr(out[0], 80))
+	}
+	wrapped := make([]string, len(codes))
+	for k, c := range codes {
+		wrapped[k] = jsxWrap(c)
+	}
+	out, err = W.Batch(wrapped, jsxPrelude)
+	if err != nil {
+		return nil, false
+	}
+	for k, r := range out {
+		if !strings.HasPrefix(r, "parse-error") && !strings.HasPrefix(r, "timeout") {
+			out[k] = r + " end:batch" // a throw is part of the batch result itself
+		}
+	}
+	return out, true
+}
+
+func clipStr(s string, n int) string {
+	if len(s) > n {
+		return s[:n]
+	}
+	return s
+}
+
+const jsxRunHelper = `function __run(k, f) { __n = 0; log("##", k); try { f.call(void 0, __req, { exports: {} }, {}); log("#end", "normal"); } catch (e) { log("#end", "throw", e); } }
+`
+
+// splitRunTrace cuts the event list of a combined script at the `log("##", k)` markers. The marker
+// text `s:"##" ` cannot occur inside a canonical value (strings and keys are JSON-quoted there).
+func splitRunTrace(res string, n int) ([]string, bool) {
+	const pre = "v:u events:"
+	if !strings.HasPrefix(res, pre) {
+		return nil, false
+	}
+	segs := strings.Split("|"+res[len(pre):], `|s:"##" `)
+	if len(segs) != n+1 || segs[0] != "" {
+		return nil, false
+	}
+	out := make([]string, n)
+	for k, seg := range segs[1:] {
+		bar := strings.IndexByte(seg, '|')
+		end := strings.LastIndex(seg, `|s:"#end" `)
+		if bar < 0 || end < 0 || strings.Contains(seg[end+1:], "|") {
+			return nil, false // events were dropped (overflow): run the programs one by one
+		}
+		if !strings.HasPrefix(seg, "n:") || !strings.HasSuffix(seg[:bar], fmt.Sprintf("(%d)", k)) {
+			return nil, false
+		}
+		out[k] = "events:" + seg[bar+1:end] + " end:" + seg[end+1:]
+		if bar+1 > end {
+			out[k] = "events: end:" + seg[end+1:]
+		}
+	}
+	return out, true
+}
+
 var posRe = regexp.MustCompile(`s:"@\d+:\d+:string"`)
 
 // stripPos removes the line/column that the dev runtime received: they legitimately differ between
@@ -192,7 +266,108 @@ func moduleTrace(code string) (string, bool) {
 	return s + " end:" + resp.End, true
 }
 
+// dashGlueRe: a JSX name that ends in "-", a gap, and the start of another name (finding
+// C01-jsx-preserve-minify-dash-glue).
+var dashGlueRe = regexp.MustCompile(`-(?:\s|/\*[^*]*\*/|//[^\n]*\n)+[A-Za-z_$\x{80}-\x{10FFFF}]`)
+
+// braceCommentElemRe: an expression container that holds comments and then a JSX element (finding
+// C01-jsx-preserve-comment-before-element-child). Group 1 is the comment run.
+var braceCommentElemRe = regexp.MustCompile(`\{((?:\s|/\*[^*]*\*/|//[^\n]*\n)*(?:/\*[^*]*\*/|//[^\n]*)(?:\s|/\*[^*]*\*/|//[^\n]*\n)*)<`)
+
+// blankComments overwrites the comments of a comment run with spaces, keeping every line break and the
+// UTF-16 length (the development-mode columns in the reference must stay valid).
+func blankComments(run string) string {
+	var sb strings.Builder
+	for i := 0; i < len(run); {
+		switch {
+		case strings.HasPrefix(run[i:], "/*"):
+			end := i + 2 + strings.Index(run[i+2:], "*/") + 2
+			for _, r := range run[i:end] {
+				if r == '\n' || r == '\r' || r == 0x2028 || r == 0x2029 {
+					sb.WriteRune(r)
+				} else if r > 0xFFFF {
+					sb.WriteString("  ")
+				} else {
+					sb.WriteByte(' ')
+				}
+			}
+			i = end
+		case strings.HasPrefix(run[i:], "//"):
+			end := i
+			for end < len(run) && run[end] != '\n' {
+				end++
+			}
+			for _, r := range run[i:end] {
+				if r > 0xFFFF {
+					sb.WriteString("  ")
+				} else {
+					sb.WriteByte(' ')
+				}
+			}
+			i = end
+		default:
+			sb.WriteByte(run[i])
+			i++
+		}
+	}
+	return sb.String()
+}
+
+// A knownShape recognises the input shape of a listed finding and rewrites the case so that the shape
+// is gone while everything else stays the same. A failing case is attributed to the finding only if
+// the rewritten case passes.
+type knownShape struct {
+	id      string
+	applies func(c JSXCase) bool
+	without func(c JSXCase) JSXCase
+}
+
+var jsxKnownShapes = []knownShape{
+	{"C01-jsx-preserve-minify-dash-glue",
+		func(c JSXCase) bool { return c.Opts.Pre.MinifyWS && dashGlueRe.MatchString(c.Src) },
+		func(c JSXCase) JSXCase { c.Opts.Pre.MinifyWS = false; return c }},
+	{"C01-jsx-preserve-comment-before-element-child",
+		func(c JSXCase) bool { return !c.Opts.Pre.MinifyWS && braceCommentElemRe.MatchString(c.Src) },
+		func(c JSXCase) JSXCase {
+			c.Src = braceCommentElemRe.ReplaceAllStringFunc(c.Src, func(m string) string {
+				return "{" + blankComments(m[1:len(m)-1]) + "<"
+			})
+			return c
+		}},
+}
+
+// jsxKnownID returns the id of the first listed finding whose shape c has and whose removal (possibly
+// followed by the removal of another listed shape that this uncovers) makes the case pass.
+func jsxKnownID(c JSXCase, depth int) string {
+	for _, k := range jsxKnownShapes {
+		if !k.applies(c) {
+			continue
+		}
+		c2 := k.without(c)
+		if v2 := judgeJSXRaw([]JSXCase{c2})[0]; v2.Discard != "" {
+			continue
+		} else if v2.OK || (depth < 2 && jsxKnownID(c2, depth+1) != "") {
+			return k.id
+		}
+	}
+	return ""
+}
+
+// judgeJSX judges a batch and classifies failures that match the signature of a listed finding.
 func judgeJSX(cases []JSXCase) []vdrv.Verdict {
+	vs := judgeJSXRaw(cases)
+	for i, c := range cases {
+		v := &vs[i]
+		if v.OK || v.Known != "" || !strings.Contains(v.Detail, "preserve") {
+			continue
+		}
+		// the failure involves the preserve step
+		v.Known = jsxKnownID(c, 0)
+	}
+	return vs
+}
+
+func judgeJSXRaw(cases []JSXCase) []vdrv.Verdict {
 	vs := make([]vdrv.Verdict, len(cases))
 	runs := make([]jsxRun, len(cases))
 	res := make([][3]string, len(cases)) // traces of e1, e2, ref
@@ -217,24 +392,20 @@ func judgeJSX(cases []JSXCase) []vdrv.Verdict {
 			}
 			continue
 		}
-		codes = append(codes, jsxWrap(runs[i].e1), jsxWrap(runs[i].e2))
+		codes = append(codes, runs[i].e1, runs[i].e2)
 		owner = append(owner, i*3, i*3+1)
 		if c.Ref != "" {
-			codes = append(codes, jsxWrap(c.Ref))
+			codes = append(codes, c.Ref)
 			owner = append(owner, i*3+2)
 		}
 	}
 	if len(codes) > 0 && !infra {
-		out, err := W.Batch(codes, jsxPrelude)
-		if err != nil {
+		out, ok := jsxRunAll(codes)
+		if !ok {
 			infra = true
 		} else {
 			for k, o := range owner {
-				r := out[k]
-				if !strings.HasPrefix(r, "parse-error") && !strings.HasPrefix(r, "timeout") {
-					r += " end:normal" // a throw is part of the batch result itself
-				}
-				res[o/3][o%3] = r
+				res[o/3][o%3] = out[k]
 			}
 		}
 	}
@@ -309,7 +480,7 @@ func jsxVerdict(c JSXCase, r jsxRun, tr [3]string) vdrv.Verdict {
 	// non-trivial: at least two factory calls or probes were observed (a nested element, or an element
 	// with an evaluated attribute/child), i.e. there is an order and a structure that could be wrong
 	calls := strings.Count(t1, "|") + 1
-	if !strings.Contains(t1, "events:") {
+	if !strings.Contains(t1, "events:") || strings.Contains(t1, "events: end:") {
 		calls = 0
 	}
 	v := vdrv.Pass(calls >= 2, cls...)
@@ -878,6 +1049,7 @@ type jgen struct {
 	budget int // elements left
 	inMap  int
 	signed bool // allow the signed numeric references of finding C01-jsx-signed-numeric-entity
+	dashOK bool // allow names that end in "-" (finding C01-jsx-preserve-minify-dash-glue when preserve is minified)
 	labels map[string]bool
 }
 
@@ -891,6 +1063,12 @@ var jsxAttrNamesNonCore = []string{"__proto__", "children", "__self", "__source"
 func (g *jgen) tag() string {
 	if jbool.Draw(g.rt, "tagkind") {
 		t := pick(g.rt, "tag", jsxTagsString)
+		if strings.HasSuffix(t, "-") && !g.dashOK {
+			t = "x-y"
+		}
+		if strings.HasSuffix(t, "-") {
+			g.label("name-trailing-dash")
+		}
 		if strings.ContainsAny(t, ":") {
 			g.label("tag-namespaced")
 		} else if strings.Contains(t, "-") {
@@ -977,7 +1155,7 @@ func (g *jgen) expr(depth int) *jx {
 		g.label("expr-template")
 		return &jx{parts: []interface{}{"`a${", g.elem(depth + 1), "}é`"}}
 	case 10:
-		return &jx{parts: []interface{}{g.probe() + " + " + g.lit()}}
+		return &jx{parts: []interface{}{g.probe() + " + (" + g.lit() + ")"}}
 	default:
 		return &jx{parts: []interface{}{g.probe()}}
 	}
@@ -1256,6 +1434,12 @@ func (g *jgen) attrs() []jattr {
 			continue
 		}
 		a.name = pick(rt, "attrname", jsxAttrNames)
+		if strings.HasSuffix(a.name, "-") && !g.dashOK {
+			a.name = "on-click"
+		}
+		if strings.HasSuffix(a.name, "-") {
+			g.label("name-trailing-dash")
+		}
 		if !g.core && pct(rt, "noncorename", 12) {
 			a.name = pick(rt, "attrname2", jsxAttrNamesNonCore)
 			if g.auto && strings.HasPrefix(a.name, "__s") {
@@ -1447,11 +1631,11 @@ func drawJSXOpts(rt *rapid.T) JSXOpts {
 		o.Out.Format = pick(rt, "format", []string{"", "", "esm", "cjs", "iife"})
 	case 2, 3:
 		o.Mode = "automatic"
-		o.Out.Format = pick(rt, "format", []string{"cjs", "cjs", "iife", "iife", "esm", ""})
+		o.Out.Format = pick(rt, "format", []string{"cjs", "cjs", "cjs", "cjs", "iife", "iife", "iife", "iife", "esm", ""})
 	default:
 		o.Mode = "automatic"
 		o.Dev = true
-		o.Out.Format = pick(rt, "format", []string{"cjs", "cjs", "iife", "iife", "esm", ""})
+		o.Out.Format = pick(rt, "format", []string{"cjs", "cjs", "cjs", "cjs", "iife", "iife", "iife", "iife", "esm", ""})
 	}
 	if o.Mode == "automatic" {
 		o.ImportSource = pick(rt, "importsource", []string{"", "", "preact", "@scope/lib"})
@@ -1483,6 +1667,7 @@ func sortedLabels(m map[string]bool) []string {
 func genJSXCase(rt *rapid.T, lit bool) JSXCase {
 	o := drawJSXOpts(rt)
 	g := &jgen{rt: rt, auto: o.Mode == "automatic", labels: map[string]bool{}}
+	g.dashOK = !o.Pre.MinifyWS || pct(rt, "dashok", 10)
 	mode := refMode{auto: g.auto, dev: o.Dev}
 	var c JSXCase
 	if lit {
